@@ -8,6 +8,7 @@ package c02
 import (
 	"bytes"
 	"crypto/sha256"
+	"crypto/sha512"
 	"encoding/json"
 	"fmt"
 	"hash"
@@ -66,7 +67,7 @@ type Case struct {
 	Prog     *prog.Program `json:"prog"`
 	Curve    string        `json:"curve"`
 	Alt      []prog.Val    `json:"alt"`
-	Hashes   string        `json:"hashes"` // default | sha256 | sha3 : challenge / folding / hash-to-field set consistently on both sides
+	Hashes   string        `json:"hashes"` // default | sha256 | sha3 | sha512 | sha224 : challenge / folding / hash-to-field set consistently on both sides
 	Variants []Variant     `json:"variants"`
 }
 
@@ -77,6 +78,10 @@ func hashOpts(name string) ([]backend.ProverOption, []backend.VerifierOption) {
 		h = sha256.New
 	case "sha3":
 		h = sha3.New256
+	case "sha512": // digest wider than a field element
+		h = sha512.New
+	case "sha224": // digest narrower than a field element
+		h = sha256.New224
 	default:
 		return nil, nil
 	}
@@ -624,7 +629,7 @@ func genCase(curves []string) *rapid.Generator[Case] {
 		cn := rapid.SampledFrom(curves).Draw(t, "curve")
 		f := prog.FieldByName(cn)
 		p := zk.GenProvable(zk.ProvableCfg{Q: f.Q, MaxOps: 7, MaxCommits: 2}).Draw(t, "prog")
-		c := Case{Prog: p, Curve: cn, Hashes: rapid.SampledFrom([]string{"default", "default", "sha256", "sha3"}).Draw(t, "hashes")}
+		c := Case{Prog: p, Curve: cn, Hashes: rapid.SampledFrom([]string{"default", "default", "sha256", "sha3", "sha512", "sha224"}).Draw(t, "hashes")}
 		for i := range p.In {
 			if rapid.IntRange(0, 2).Draw(t, "keep") != 0 {
 				c.Alt = append(c.Alt, p.In[i].V)
@@ -678,7 +683,7 @@ func runKey(c KeyCase) ev.Outcome {
 	if tau.Cmp(big.NewInt(2)) < 0 {
 		tau.SetInt64(12345)
 	}
-	cs, err := prog.CompileU64(f, prog.SCS, prog.NewCircuit(c.Prog), )
+	cs, err := prog.CompileU64(f, prog.SCS, prog.NewCircuit(c.Prog))
 	if err != nil {
 		return ev.Outcome{Discard: true, DiscardWhy: "compile failed (C04 covers this): " + firstLine(err.Error())}
 	}
